@@ -55,7 +55,29 @@ pub async fn run_ls(cmd_args: CmdArgs) -> Result<(), Box<dyn Error + Sync + Send
         }
     });
 
-    connection.initialize_finish(id, initialize_data)?;
+    // answer the initialize request and wait for `initialized`; a request that arrives in
+    // between is answered (ServerNotInitialized) instead of ending the server unanswered
+    connection.sender.send(::lsp_server::Message::Response(
+        ::lsp_server::Response::new_ok(id, initialize_data),
+    ))?;
+    loop {
+        match connection.receiver.recv()? {
+            ::lsp_server::Message::Notification(n) if n.method == "initialized" => break,
+            ::lsp_server::Message::Request(req) => {
+                let response = ::lsp_server::Response::new_err(
+                    req.id,
+                    ::lsp_server::ErrorCode::ServerNotInitialized as i32,
+                    "the initialized notification has not been received yet".to_owned(),
+                );
+                connection
+                    .sender
+                    .send(::lsp_server::Message::Response(response))?;
+            }
+            msg => {
+                return Err(format!("expected initialized notification, got: {msg:?}").into());
+            }
+        }
+    }
 
     // Create async connection wrapper
     let async_connection = AsyncConnection::from_sync(connection);
